@@ -6,19 +6,19 @@ CHECKS = {
  'C02': ('exploration', 'peek/offset-read programs; reclamation bookkeeping snapshots around every non-consuming call', '2.1'),
  'C03': ('exploration', 'cap/budget/progress monitor on every batch read of generated programs', '2.1'),
  'C04': ('fault_enumeration', 'failpoint-injected I/O failures and rejected operations vs. lock-step model', '2.2'),
+ 'C05': ('exploration', 'real threads serialised by a token scheduler at the engine sched_point hooks (bounded DFS, random walk, PCT, free-running); API-boundary histories checked for exactly-once, per-producer order, batch contiguity; physical log re-read by a fresh process', '2.5'),
  'C06': ('exploration', 'restart/reopen histories (incl. file-naming clock regression) vs. lock-step model', '2.1'),
  'C07': ('fault_enumeration', 'crash-point enumeration over the verif I/O-event hook (_exit before the k-th event per thread class; io_uring batch subsets), recovery in fresh processes vs. acknowledgement log', '2.4'),
  'C08': ('fault_enumeration', 'crash points inside batch appends (per block write; every prefix / single omission / random subset of an io_uring batch), all-or-nothing oracle on the recovered topic', '2.4'),
  'C09': ('fault_enumeration', 'crash-point enumeration on read-dominated workloads, resumed consumer position vs. returned reads (strict: exact; at-least-once: never ahead, bounded redelivery)', '2.4'),
+ 'C11': ('exploration', 'byte-level mutation of engine-written directories (headers, payloads, cursor index, marker file, truncation, stray files) opened by fresh debug / ASan / release workers; payload provenance oracle', '2.6'),
  'C14': ('exploration', 'hostile key strings through every constructor in a sandbox tree; created files located', '2.3'),
  'C15': ('exploration', 'count probes at quiescent points vs. appended-minus-consumed of the model', '2.1'),
  'C16': ('exploration', 'differential execution per backend in separate processes, transcripts compared', '2.1'),
  'C17': ('exploration', 'marker histories with immediate reopen/restart vs. last-writer model', '2.1'),
 }
 NA = {
- 'C05': 'runtime monitor (token scheduler over the sched_point hooks + exactly-once checker) designed in DESIGN.md 3 but not finished in the time available; the run_concurrent op of harness/wsrv exists, the history checker does not - not claimed',
  'C10': 'needs the I/O-trace power-loss replayer of DESIGN.md 3, not built - not claimed',
- 'C11': 'byte-mutation driver (with Miri/ASan runs for the UB part) not built in the time available - not claimed',
  'C12': 'needs >= 100 block allocations (1 GiB) per history and the reclaim-pass hook; driver not built - not claimed',
  'C13': 'multi-instance driver not built - not claimed',
  'C18': 'distributed-walrus does not build offline (tokio, bincode, ... are not in the cargo cache); the stand-in-crate harness of DESIGN.md 0 was not ported into /verif - not claimed',
